@@ -14,7 +14,7 @@ def plan(ctx):
            ("ddtock", sched.mk(["a", ["G", "b", "c"]], owntock={"G": 2}, Tocks=[0, 1, 3], MaxSteps=3, Limit=6))]
     big = sched.mk(["a", ["G", "b", ["H", "c", "e"]], "d", ["K", "f", "g"]], Tocks=[0, 1, 2, 3, 5], MaxSteps=7, Limit=0, Tock=2, T0=1,
                    Rets=["T", "F", "N"], EnterOuts=["ok", "r"])
-    sim = [("big", big, 600 if q else 20000)]
+    sim = [("big", big, 600 if q else 60000)]
     if not q:
         refine.append(("refine-two", sched.mk(sched.TWO, Tocks=[0, 2, 3], MaxSteps=3, Limit=5, Rets=["T", "N"])))
     return dict(refine=refine, exh=exh, sim=sim)
